@@ -77,6 +77,14 @@ def gen(rng):
     horizon = rng.choice([6000, 9000, 14000])
     connected = rng.random() < 0.9
     exp = rng.choice([0, 0, 2, 3, 5])
+    if connected and sc["och"] and not sc["uni"] and rng.random() < 0.12:
+        # the connect fails after authentication (unusable connection): silence, or some later command
+        t += rng.choice([50, 200, 450, 800, 1200])
+        evs.append([t, "connectfail"])
+        connected = False
+        if rng.random() < 0.4:
+            t += rng.choice([130, 370, 905, 2230])
+            evs.append(rng.choice([[t, "pong"], [t, "connect", 0], [t, "refresh", "3"], [t, "sub", 1, 2, 1], [t, "connectfail"]]))
     if connected:
         t += rng.choice([50, 200, 450, 800, 1200, 2500])
         evs.append([t, "connect", exp])
@@ -278,7 +286,7 @@ def oracle(op, out):
         authed_in_time = t_conn is not None and t_conn <= dl
         if stale > 0 and not authed_in_time and dl <= end:
             if not (t_disc is not None and (t_disc < dl or (t_disc == dl and code == 3502))):
-                return (f"unauthenticated connection not closed Stale at {dl} (disconnects {discs})",
+                return (f"connection that never connected successfully (unauthenticated, or its connect failed) not closed Stale at {dl} (disconnects {discs})",
                         dict(base, kind="stale-missing"))
         if code == 3502 and (stale == 0 or authed_in_time or t_disc != dl):
             return (f"Stale close at {t_disc} of an authenticated connection / at the wrong time", dict(base, kind="stale-spurious"))
@@ -331,7 +339,8 @@ def oracle(op, out):
                 stamp = None
                 break
             asked = any(ev[2] == "x" or ev[2].startswith("-") for ev in at(t, "refresh") + at(t, "srefresh")) or \
-                any(ev[3] == "x" for ev in at(t, "subrefresh"))     # SubRefreshReply.Expired → DisconnectExpired
+                any(ev[3] == "x" for ev in at(t, "subrefresh")) or \
+                bool(at(t, "connectfail"))     # SubRefreshReply.Expired / a failed unidirectional connect → DisconnectExpired
             if not asked:
                 if stamp is None:
                     if unlimited is not None:
